@@ -11,6 +11,7 @@ dispatching via attribute access.
 
 from __future__ import annotations
 
+import math
 from typing import Any, Callable, Mapping, Sequence, Union
 
 import onnx_ir as ir
@@ -45,6 +46,19 @@ _PYTHON_TYPE_TO_DTYPE: dict[type, ir.DataType] = {
     int: ir.DataType.INT64,
     float: ir.DataType.FLOAT,
 }
+
+
+def _float_signs(value: Any) -> Any:
+    """Return the sign bits of the float elements of a constant (``None`` for other elements).
+
+    Python's ``==``/``hash`` identify ``0.0`` with ``-0.0`` although they denote
+    different tensors, so the sign bits are made part of the constant-cache key.
+    """
+    if isinstance(value, (list, tuple)):
+        return tuple(_float_signs(v) for v in value)
+    if isinstance(value, float):
+        return math.copysign(1.0, value) < 0.0
+    return None
 
 
 def _type_suffix(element_type: type) -> str:
@@ -424,7 +438,7 @@ class GraphBuilder(BuilderBase):
         # initializers live in the root graph (outer-scope initializers are
         # visible to subgraphs per the ONNX spec).
         if parent is None:
-            self._constant_cache: dict[tuple[Any, ir.DataType | None], ir.Value] = {}
+            self._constant_cache: dict[tuple[Any, ir.DataType | None, Any], ir.Value] = {}
             self._functions: dict[ir.OperatorIdentifier, ir.Function] = {}
 
     def opset(self, domain: str, version: int = 1) -> OpBuilder:
@@ -611,7 +625,7 @@ class GraphBuilder(BuilderBase):
         if isinstance(value, (int, float, bool, str)):
             if dtype is None:
                 dtype = _PYTHON_TYPE_TO_DTYPE.get(type(value))
-            cache_key = (value, dtype)
+            cache_key = (value, dtype, _float_signs(value))
             if cache_key in root._constant_cache:
                 return root._constant_cache[cache_key]
             type_suffix = _dtype_suffix(dtype) if dtype is not None else ""
@@ -628,7 +642,7 @@ class GraphBuilder(BuilderBase):
         ):
             if dtype is None:
                 dtype = _PYTHON_TYPE_TO_DTYPE.get(type(value[0]))
-            cache_key = (tuple(value), dtype)
+            cache_key = (tuple(value), dtype, _float_signs(value))
             if cache_key in root._constant_cache:
                 return root._constant_cache[cache_key]
             type_suffix = _dtype_suffix(dtype) if dtype is not None else ""
